@@ -298,6 +298,20 @@ def gen(seed, tier):
             blocks.append(block(r, 'fp', 50, 255, gf_request(60928, pairs=[(1, le(2, 3))])))   # unique number of device 1 only
             cases.append(case(cfg, ops_of(blocks)))
 
+    # F2. multi-device nodes whose devices declare DIFFERENT transmit lists: a request addressed to device k for a PGN without a dedicated
+    #     handler is acknowledged with "temporarily not available" (2) when it is on k's list and "not supported" (1) otherwise (seed C09-10)
+    for ndev in (2, 3):
+        lists = [[127488, 129029], [130306, 127250, 127488 if ndev == 3 else 128267], [128267, 129029]][:ndev]
+        extra = ''.join(' tx%d=%s' % (i, ','.join(str(p) for p in l)) for i, l in enumerate(lists))
+        cfg = node(ndev=ndev, src=30, extra=extra)
+        blocks = []
+        for k in range(ndev):
+            for pgn in (127488, 129029, 130306, 127250, 128267, 127505):
+                blocks.append(block(r, r.choice(['fp', 'fp', 'tp']), r.choice(peers), 30 + k, gf_request(pgn)))
+        r.shuffle(blocks)
+        for k in range(0, len(blocks), 9):
+            cases.append(case(cfg, ops_of(blocks[k:k + 9])))
+
     # G. random structured messages (shared with the correspondence fuzz)
     for _ in range(40 if not thorough else 1500):
         ndev = r.choice([1, 1, 2])
@@ -307,6 +321,64 @@ def gen(seed, tier):
             blocks.append(block(r, r.choice(['fp', 'fp', 'tp']), r.choice(peers), r.choice([22, 22, 22 + ndev - 1, 255]), rand_gf(r)))
         cases.append(case(cfg, ops_of(blocks)))
     return cases
+
+
+def retry_cases(r, thorough):
+    """H. the answer to a request group function for 126996 / 126998 cannot be sent (driver blocked, send buffer too small to hold it); it is
+    repeated 187 + 8 (10) x address ms later; the bus stays blocked across the first `fails` repeats and is released before the next one:
+    exactly one complete answer must appear (seed C09-11: the retry was given up after one failed repeat)"""
+    cases = []
+    for _ in range(10 if not thorough else 120):
+        src = r.choice([0, 3, 22, 25, 60])
+        pgn = r.choice([126996, 126998])
+        per = 187 + (8 if pgn == 126996 else 10) * src
+        fails = r.choice([0, 1, 1, 2, 3])
+        cfg = node(src=src, q=r.choice([3, 8, 12]))
+        ops = ['A ' + '0' * 400] + ['' if o == 'M' else o for o in block(r, 'fp', 50, src, gf_request(pgn), wait=False)]
+        for _k in range(fails):
+            ops += ['T %d' % (per + 2), 'P']
+        ops += ['T %d' % r.choice([1, per // 2]), 'A', 'T %d' % (per + 2), 'P', 'T %d' % (per + 2), 'P', 'T 3000', 'P', 'P']
+        cases.append(case(cfg, ops))
+    return cases
+
+
+def retry_oracle(case_line, res):
+    if res.startswith('crash') or res.startswith('oob'):
+        return 'memory:' + res
+    cfg, ops = parse_case(case_line)
+    per_op, _state = parse_result(res)
+    evs = [e for k, g in enumerate(per_op) for e in g if e[0] == 'tx' and e[4]]
+    msgs, err = tx_messages(evs)
+    want = None
+    for o in ops:
+        if o and o[0] == 'R':
+            want = want or None
+    # the requested PGN is the one named in the request group function (bytes 1..3 of its payload = frame 0 data bytes 3..5)
+    rq = [o for o in ops if o and o[0] == 'R']
+    d = bytes.fromhex(rq[0][3])
+    pgn = d[3] | d[4] << 8 | d[5] << 16
+    if msgs is None:
+        # frames of an answer that was cut by the blocked bus precede the complete one: count complete answers by their frame sequence instead
+        msgs = []
+    n = 0
+    cur = None
+    for e in evs:
+        cid, data = e[1], e[3]
+        p = (cid >> 8) & 0x3ffff if ((cid >> 16) & 0xff) >= 240 else (cid >> 8) & 0x3ff00
+        if p != pgn:
+            continue
+        if data[0] & 0x1f == 0:
+            cur = [data[1], 6, data[0] >> 5, 0]
+        elif cur is not None and (data[0] >> 5) == cur[2] and (data[0] & 0x1f) == cur[3] + 1:
+            cur[1] += 7; cur[3] += 1
+        else:
+            cur = None
+        if cur is not None and cur[1] >= cur[0]:
+            n += 1
+            cur = None
+    if n != 1:
+        return 'retry:%d complete answer(s) with PGN %d reached the bus after the driver accepted frames again, the property requires exactly one' % (n, pgn)
+    return None
 
 
 def rand_pairs(r, pgn):
@@ -815,5 +887,10 @@ def check(run, replay=None):
                        '(ISO request 60928 / 126998, group function request with the new value, heartbeat); random structured and truncated messages.  Model (gf_lib) and C++ compared on every driver frame, '
                        'delivery and the state dump in both scheduler builds; the oracle (reference layouts + documented error codes, independent of the Coq model) judges every answer of the implementation; '
                        'non-trivial = case in which the node transmitted')
-    for fs in ('w64', 'w32'):
+    rreplay = bool(replay) and any(l.startswith('# family: gf-retry-') for l in open(replay))
+    for fs in (() if rreplay else ('w64', 'w32')):
         vlib.correspond(run, 'groupfn-' + fs, 'h_node', fs, 'NODEGF', cases, oracle, nontrivial, known=known, model_args=[fs])
+    if rreplay or not replay:
+        rcases = cases if rreplay else retry_cases(random.Random(run.seed * 7919 + 99), run.tier != 'quick')
+        for fs in ('w64', 'w32'):
+            vlib.correspond(run, 'gf-retry-' + fs, 'h_node', fs, 'NODEGF', rcases, retry_oracle, nontrivial, model_args=[fs])
